@@ -203,8 +203,13 @@ def _exp_of(self, st, x):
         raise EncodingLimit('exp of non-finite')
     n, d = rparts(x)
     if is_conc_real(n) and n == 0:
+        st.exp_zero = getattr(st, 'exp_zero', 0) + 1
         return Fraction(1)
     t = mk_real(n, d)
+    if is_conc_real(t) and self.opts.get('concrete_defaults'):
+        import math
+        st.exp_conc = getattr(st, 'exp_conc', ()) + (t,)
+        return Fraction(math.exp(float(t)))      # concrete validation run: numeric value, compared to 1e-9
     term = _rv(t) if is_conc_real(t) else t.term()
     term = z3.simplify(term)
     key = term.sexpr()
@@ -218,6 +223,7 @@ def _exp_of(self, st, x):
     c = app > 0
     if not any(c.eq(p) for p in st.path[-64:]):
         st.path.append(c)
+        st.model = None      # the cached model may not satisfy the new axiom instance
     st.exp_args = getattr(st, 'exp_args', ()) + ((term, app),)
     return SR(app, 1)
 
@@ -502,7 +508,10 @@ def _do_check(E, st, cond, label):
         neg = None
     else:
         neg = z3.Not(cb)
+        _t0 = __import__('time').time()
         r, m = E.solve(st.path + [neg])
+        if __import__('os').environ.get('VERIF_SLOWLOG') and __import__('time').time() - _t0 > 1.0:
+            print('SLOW %.1fs %s -> %s (path %d)' % (__import__('time').time() - _t0, label, r, len(st.path)), flush=True)
     if r == 'unsat':
         rec['discharged'] += 1
         st.path.append(cb)
@@ -602,6 +611,21 @@ def b_exp_lemma_inv(E, st, fr, ins, args):
     return ea
 
 
+def b_check_exp_args(E, st, fr, ins, args):
+    """every argument handed to exp() so far on this path is <= 0 and at least one of them is exactly 0
+    (the overflow-avoidance mechanism of the density matrix: weights are exp(-beta (E - E_ground)))"""
+    label = E.cstring(st, args[0])
+    apps = getattr(st, 'exp_args', ())
+    zero_seen = getattr(st, 'exp_zero', 0)
+    for t in getattr(st, 'exp_conc', ()):
+        apps = apps + ((_rv(t), None),)
+    conds = [t <= 0 for (t, a) in apps]
+    _do_check(E, st, z3.And(*conds) if conds else True, label + ': every exp argument <= 0')
+    some0 = z3.Or(*[t == 0 for (t, a) in apps]) if apps else False
+    _do_check(E, st, True if zero_seen else some0, label + ': some exp argument == 0')
+    return None
+
+
 def b_concretize(E, st, fr, ins, args):
     v = args[0]
     if type(v) is int:
@@ -643,7 +667,7 @@ EXACT = {
     '__v_sym_int': b_sym_int, '__v_sym_real': b_sym_real, '__v_assume': b_assume_h, '__v_check': b_check,
     '__v_check_eq': b_check_eq, '__v_check_le': b_check_le, '__v_reach': b_reach, '__v_note': b_note,
     '__v_record': b_record, '__v_record_int': b_record_int, '__v_exp_lemma_add': b_exp_lemma_add,
-    '__v_exp_lemma_inv': b_exp_lemma_inv, '__v_concretize': b_concretize,
+    '__v_exp_lemma_inv': b_exp_lemma_inv, '__v_concretize': b_concretize, '__v_check_exp_args': b_check_exp_args,
     # std exception plumbing that lives in libstdc++.so
     '_ZNSt9exceptionD2Ev': b_nop, '_ZNSt9exceptionD1Ev': b_nop, '_ZNSt9bad_allocD1Ev': b_nop,
     '_ZNSt11logic_errorC2EPKc': b_nop, '_ZNSt11logic_errorD2Ev': b_nop, '_ZNSt11logic_errorD1Ev': b_nop,
@@ -693,7 +717,7 @@ def install(E):
     E.std_typeinfo = lambda st, kind: _std_typeinfo(E, st, kind)
     # names that must take precedence over definitions in the module
     for n in ('__v_sym_int', '__v_sym_real', '__v_assume', '__v_check', '__v_check_eq', '__v_check_le', '__v_reach',
-              '__v_note', '__v_record', '__v_record_int', '__v_exp_lemma_add', '__v_exp_lemma_inv', '__v_concretize',
+              '__v_note', '__v_record', '__v_record_int', '__v_exp_lemma_add', '__v_exp_lemma_inv', '__v_concretize', '__v_check_exp_args',
               '_Znwm', '_Znam', '_ZdlPv', '_ZdaPv', '_ZdlPvm', 'malloc', 'free', 'calloc', 'realloc'):
         E.builtins[n] = EXACT[n]
     # any ostream function that happens to be defined in the module (implicit instantiation) is still a no-op
